@@ -29,21 +29,21 @@ prop("C01",
      ["C01."],
      [fam("nolimit","H",1500), fam("nolimit","L",1500), fam("pool","P",1000), fam("dfs-lock2","H",4000), fam("dfs-cancel","H",4000),
       fam("evict","L",800,"monitor"), fam("stream","H",800,"monitor"), fam("expiry","L",800,"monitor"), fam("fine-nolimit","H",1500), fam("fine-nolimit","L",1500), fam("wide","H",600)],
-     [fam("nolimit","H",40000), fam("nolimit","L",40000), fam("pool","P",20000), fam("dfs-lock2","H",200000), fam("dfs-lock3","L",200000),
-      fam("dfs-cancel","H",200000), fam("evict","L",20000,"monitor"), fam("stream","H",20000,"monitor"), fam("expiry","L",20000,"monitor"), fam("mix","L",20000,"monitor"), fam("fine-nolimit","H",40000), fam("fine-nolimit","L",40000), fam("fine-mix","H",40000), fam("wide","H",20000), fam("wide","L",20000)],
+     [fam("nolimit","H",40000), fam("nolimit","L",40000), fam("pool","P",20000), fam("dfs-lock2","H",80000), fam("dfs-lock3","L",80000),
+      fam("dfs-cancel","H",80000), fam("evict","L",20000,"monitor"), fam("stream","H",20000,"monitor"), fam("expiry","L",20000,"monitor"), fam("mix","L",20000,"monitor"), fam("fine-nolimit","H",40000), fam("fine-nolimit","L",40000), fam("fine-mix","H",40000), fam("wide","H",20000), fam("wide","L",20000)],
      cosim_ignore="order,stamp",
      smoke=True)
 prop("C02",
      ["C02_only_guard_ops_change_values", "C02_guard_op_is_local", "C02_new_guard_shows_stored_value", "C02_value_history", "C02_next_guard_sees_what_was_left", "C02_witness"],
      ["C02."],
      [fam("nolimit","H",1500), fam("nolimit","L",1500), fam("dfs-lock2","L",4000), fam("evict","H",800,"monitor"), fam("stream","L",800,"monitor"), fam("mix","L",800,"monitor"), fam("scale","L",2,"monitor"), fam("fine-nolimit","L",2000), fam("fine-mix","H",2000), fam("wide","L",600)],
-     [fam("nolimit","H",40000), fam("nolimit","L",40000), fam("dfs-lock2","L",200000), fam("dfs-lock3","H",200000), fam("evict","H",20000,"monitor"), fam("stream","L",20000,"monitor"), fam("mix","L",20000,"monitor"), fam("scale","L",16,"monitor"), fam("scale","H",16,"monitor"), fam("fine-nolimit","L",40000), fam("fine-nolimit","H",40000), fam("fine-mix","H",40000), fam("fine-mix","L",40000), fam("wide","L",20000), fam("wide-evict","H",20000)],
+     [fam("nolimit","H",40000), fam("nolimit","L",40000), fam("dfs-lock2","L",80000), fam("dfs-lock3","H",80000), fam("evict","H",20000,"monitor"), fam("stream","L",20000,"monitor"), fam("mix","L",20000,"monitor"), fam("scale","L",16,"monitor"), fam("scale","H",16,"monitor"), fam("fine-nolimit","L",40000), fam("fine-nolimit","H",40000), fam("fine-mix","H",40000), fam("fine-mix","L",40000), fam("wide","L",20000), fam("wide-evict","H",20000)],
      cosim_ignore="order,stamp")
 prop("C04",
      ["C04_keys_exact", "C04_quiescent", "C04_count_reports_keys", "C04_keys_reports_keys", "C04_witness"],
      ["C04."],
      [fam("nolimit","H",1500), fam("nolimit","L",1500), fam("pool","P",1000), fam("dfs-cancel","H",4000), fam("mix","H",800,"monitor"), fam("evict","L",800,"monitor"), fam("stream","H",800,"monitor"), fam("scale","L",2,"monitor"), fam("fine-nolimit","H",2000), fam("fine-mix","L",2000), fam("wide","H",600)],
-     [fam("nolimit","H",40000), fam("nolimit","L",40000), fam("pool","P",20000), fam("dfs-cancel","H",200000), fam("dfs-lock3","H",100000), fam("mix","H",20000,"monitor"), fam("evict","L",20000,"monitor"), fam("stream","H",20000,"monitor"), fam("fine-nolimit","H",40000), fam("fine-mix","L",40000), fam("fine-stream","H",40000), fam("wide","H",20000), fam("wide-evict","L",20000)],
+     [fam("nolimit","H",40000), fam("nolimit","L",40000), fam("pool","P",20000), fam("dfs-cancel","H",80000), fam("dfs-lock3","H",100000), fam("mix","H",20000,"monitor"), fam("evict","L",20000,"monitor"), fam("stream","H",20000,"monitor"), fam("fine-nolimit","H",40000), fam("fine-mix","L",40000), fam("fine-stream","H",40000), fam("wide","H",20000), fam("wide-evict","L",20000)],
      cosim_ignore="order,stamp,value",
      smoke=True)
 prop("C12",
@@ -57,7 +57,7 @@ prop("C13",
      ["C13."],
      [fam("mix","H",1200), fam("mix","L",1200), fam("nolimit","L",800), fam("evict","H",800), fam("expiry","L",800), fam("stream","H",800), fam("pool","P",600), fam("dfs-cancel","H",3000), fam("dfs-stream","L",3000), fam("fine-mix","H",1500), fam("fine-mix","L",1500), fam("fine-evict","L",1000), fam("scale-stream","L",2,"monitor"), fam("wide","H",600), fam("wide-evict","L",600), fam("fine-wide","L",600)],
      [fam("mix","H",40000), fam("mix","L",40000), fam("nolimit","L",20000), fam("evict","H",20000), fam("evict","L",20000), fam("expiry","L",20000), fam("stream","H",20000), fam("stream","L",20000), fam("pool","P",20000),
-      fam("dfs-cancel","H",200000), fam("dfs-stream","L",200000), fam("dfs-evict","L",100000), fam("dfs-expiry","L",100000), fam("dfs-lock3","H",100000), fam("fine-mix","H",40000), fam("fine-mix","L",40000), fam("fine-evict","L",40000), fam("fine-evict","H",40000), fam("fine-stream","L",40000), fam("fine-expiry","L",40000), fam("scale-stream","L",16,"monitor"), fam("scale","L",8,"monitor"), fam("wide","H",20000), fam("wide","L",20000), fam("wide-evict","L",20000), fam("wide-evict","H",20000), fam("fine-wide","L",20000), fam("fine-wide-evict","H",20000)],
+      fam("dfs-cancel","H",80000), fam("dfs-stream","L",80000), fam("dfs-evict","L",100000), fam("dfs-expiry","L",100000), fam("dfs-lock3","H",100000), fam("fine-mix","H",40000), fam("fine-mix","L",40000), fam("fine-evict","L",40000), fam("fine-evict","H",40000), fam("fine-stream","L",40000), fam("fine-expiry","L",40000), fam("scale-stream","L",16,"monitor"), fam("scale","L",8,"monitor"), fam("wide","H",20000), fam("wide","L",20000), fam("wide-evict","L",20000), fam("wide-evict","H",20000), fam("fine-wide","L",20000), fam("fine-wide-evict","H",20000)],
      cosim_ignore="order,stamp,value",
      smoke=True)
 
@@ -67,43 +67,43 @@ prop("C03",
       "C03_release_hands_over", "C03_handed_waiter_runs", "C03_waiter_never_detached", "C03_blocked_only_by_client_guards", "C03_no_library_deadlock", "C03_never_stuck", "C03_draining_always_terminates", "C03_draining_ends_at_rest", "C03_drain_witness", "C03_witness"],
      ["C14.lost_wakeup", "C03.", "C13.hang", "C03.stream_stall"],
      [fam("evict","H",1500,"monitor"), fam("evict","L",1500,"monitor"), fam("mix","L",1000,"monitor"), fam("dfs-lock3","H",3000), fam("dfs-lock2","L",4000), fam("nolimit","H",1500), fam("nolimit","L",1500), fam("dfs-cancel","H",4000), fam("dfs-stream","L",3000), fam("stream","H",800), fam("scale-stream","L",4,"monitor"), fam("scale-stream","H",4,"monitor"), fam("fine-nolimit","H",1500), fam("wide","H",600,"monitor")],
-     [fam("evict","H",40000,"monitor"), fam("evict","L",40000,"monitor"), fam("mix","L",40000,"monitor"), fam("mix","H",40000,"monitor"), fam("dfs-lock3","H",200000), fam("dfs-lock3","L",200000), fam("dfs-lock2","L",200000), fam("nolimit","H",40000), fam("nolimit","L",40000), fam("dfs-cancel","H",200000), fam("dfs-stream","L",200000), fam("stream","H",20000), fam("stream","L",20000), fam("scale-stream","L",64,"monitor"), fam("scale-stream","H",64,"monitor"), fam("fine-nolimit","H",40000), fam("fine-stream","L",40000), fam("wide","H",20000,"monitor"), fam("wide-evict","L",20000,"monitor")],
+     [fam("evict","H",40000,"monitor"), fam("evict","L",40000,"monitor"), fam("mix","L",40000,"monitor"), fam("mix","H",40000,"monitor"), fam("dfs-lock3","H",80000), fam("dfs-lock3","L",80000), fam("dfs-lock2","L",80000), fam("nolimit","H",40000), fam("nolimit","L",40000), fam("dfs-cancel","H",80000), fam("dfs-stream","L",80000), fam("stream","H",20000), fam("stream","L",20000), fam("scale-stream","L",64,"monitor"), fam("scale-stream","H",64,"monitor"), fam("fine-nolimit","H",40000), fam("fine-stream","L",40000), fam("wide","H",20000,"monitor"), fam("wide-evict","L",20000,"monitor")],
      cosim_ignore="order,stamp,value",
      smoke=True)
 prop("C06",
      ["C06_cancel_pending_lock", "C06_cancel_stream_entry", "C06_cancel_restores_state", "C06_no_residue", "C06_witness"],
      ["C04.", "C12.", "C13.", "C06."],
      [fam("dfs-cancel","H",6000), fam("dfs-cancel","L",6000), fam("dfs-stream","L",4000), fam("dfs-stream","H",4000), fam("nolimit","H",1500), fam("stream","L",1500), fam("evict","L",800), fam("mix","L",800), fam("fine-mix","L",1500), fam("fine-stream","H",1500), fam("wide","L",600)],
-     [fam("dfs-cancel","H",300000), fam("dfs-cancel","L",300000), fam("dfs-stream","L",300000), fam("dfs-stream","H",300000), fam("nolimit","H",40000), fam("nolimit","L",40000), fam("stream","L",40000), fam("stream","H",40000), fam("evict","L",20000), fam("mix","L",20000), fam("pool","P",20000), fam("fine-mix","L",40000), fam("fine-stream","H",40000), fam("fine-nolimit","L",40000), fam("wide","L",20000), fam("fine-wide","H",20000)],
+     [fam("dfs-cancel","H",100000), fam("dfs-cancel","L",100000), fam("dfs-stream","L",100000), fam("dfs-stream","H",100000), fam("nolimit","H",40000), fam("nolimit","L",40000), fam("stream","L",40000), fam("stream","H",40000), fam("evict","L",20000), fam("mix","L",20000), fam("pool","P",20000), fam("fine-mix","L",40000), fam("fine-stream","H",40000), fam("fine-nolimit","L",40000), fam("wide","L",20000), fam("fine-wide","H",20000)],
      cosim_ignore="order,stamp")
 prop("C07",
      ["C07_offered", "C07_no_callback", "C07_no_limit_no_callback", "C07_bound", "C07_cooperative_round", "C07_cooperative_loop_terminates", "C07_cooperative_round_enabled", "C07_cooperative_loop_reaches_lookup", "C07_witness"],
      ["C07."],
      [fam("evict","H",2500), fam("evict","L",2500), fam("dfs-evict","L",4000), fam("dfs-evict","H",4000), fam("fine-evict","H",1500), fam("fine-evict","L",1500), fam("wide-evict","H",800), fam("wide-evict","L",800)],
-     [fam("evict","H",60000), fam("evict","L",60000), fam("dfs-evict","L",300000), fam("dfs-evict","H",300000), fam("mix","H",20000,"monitor"), fam("fine-evict","H",40000), fam("fine-evict","L",40000), fam("wide-evict","H",30000), fam("wide-evict","L",30000), fam("fine-wide-evict","L",20000)],
+     [fam("evict","H",60000), fam("evict","L",60000), fam("dfs-evict","L",100000), fam("dfs-evict","H",100000), fam("mix","H",20000,"monitor"), fam("fine-evict","H",40000), fam("fine-evict","L",40000), fam("wide-evict","H",30000), fam("wide-evict","L",30000), fam("fine-wide-evict","L",20000)],
      cosim_ignore="order,stamp")
 prop("C08",
      ["C08_all_locked_proceeds", "C08_never_waits", "C08_callback_holds_nothing", "C08_reentrant", "C08_error_propagates", "C08_no_deadlock_at_the_limit", "C08_witness"],
      ["C08.", "C13.", "C07."],
      [fam("evict","H",2500), fam("evict","L",2500), fam("dfs-evict","L",4000), fam("dfs-evict","H",4000), fam("fine-evict","H",1500), fam("fine-evict","L",1500), fam("wide-evict","L",800)],
-     [fam("evict","H",60000), fam("evict","L",60000), fam("dfs-evict","L",300000), fam("dfs-evict","H",300000), fam("fine-evict","H",40000), fam("fine-evict","L",40000), fam("wide-evict","L",30000), fam("wide-evict","H",30000)],
+     [fam("evict","H",60000), fam("evict","L",60000), fam("dfs-evict","L",100000), fam("dfs-evict","H",100000), fam("fine-evict","H",40000), fam("fine-evict","L",40000), fam("wide-evict","L",30000), fam("wide-evict","H",30000)],
      cosim_ignore="order,stamp")
 prop("C09",
      ["C09_offer_is_lru_prefix", "C09_lookup_promotes", "C09_only_the_subject_key_moves", "C09_interval_order", "C09_offer_respects_order", "C09_witness"],
      ["C09."],
      [fam("seq","L",4000), fam("evict","L",3000), fam("dfs-evict","L",5000), fam("mix","L",1000), fam("fine-evict","L",1500), fam("wide-evict","L",1000), fam("wide","L",600)],
-     [fam("seq","L",150000), fam("evict","L",100000), fam("dfs-evict","L",300000), fam("mix","L",40000), fam("fine-evict","L",40000), fam("fine-mix","L",40000), fam("wide-evict","L",40000), fam("wide","L",20000)])
+     [fam("seq","L",150000), fam("evict","L",100000), fam("dfs-evict","L",100000), fam("mix","L",40000), fam("fine-evict","L",40000), fam("fine-mix","L",40000), fam("wide-evict","L",40000), fam("wide","L",20000)])
 prop("C10",
      ["C10_call_is_total", "C10_exact", "C10_stamp_is_unlock_time", "C10_tick", "C10_idle_entry_keeps_value_and_stamp", "C10_idle_entry_eventually_returned", "C10_witness", "C10_idle_witness", "C10_witness_max"],
      ["C10.", "C13.panic"],
      [fam("expiry","L",3000), fam("dfs-expiry","L",5000), fam("fine-expiry","L",2000), fam("wide","L",600)],
-     [fam("expiry","L",100000), fam("dfs-expiry","L",300000), fam("mix","L",40000), fam("fine-expiry","L",60000), fam("wide","L",30000)],
+     [fam("expiry","L",100000), fam("dfs-expiry","L",100000), fam("mix","L",40000), fam("fine-expiry","L",60000), fam("wide","L",30000)],
      smoke=True)
 prop("C11",
      ["C11_snapshot", "C11_stream_step", "C11_never_yields_valueless", "C11_end_iff_done", "C11_first_poll_enabled", "C11_handed_poll_enabled", "C11_valueless_guard_is_dropped", "C11_exactly_once", "C11_complete_at_end", "C11_witness", "C11_trace_witness"],
      ["C11.", "C03.stream_stall"],
      [fam("stream","H",2500), fam("stream","L",2500), fam("dfs-stream","L",4000), fam("dfs-stream","H",4000), fam("fine-stream","H",1500), fam("fine-stream","L",1500), fam("scale-stream","L",3,"monitor"), fam("wide","L",600)],
-     [fam("stream","H",60000), fam("stream","L",60000), fam("dfs-stream","L",300000), fam("dfs-stream","H",300000), fam("fine-stream","H",40000), fam("fine-stream","L",40000), fam("scale-stream","L",32,"monitor"), fam("scale-stream","H",32,"monitor"), fam("wide","L",20000), fam("wide","H",20000)])
+     [fam("stream","H",60000), fam("stream","L",60000), fam("dfs-stream","L",100000), fam("dfs-stream","H",100000), fam("fine-stream","H",40000), fam("fine-stream","L",40000), fam("scale-stream","L",32,"monitor"), fam("scale-stream","H",32,"monitor"), fam("wide","L",20000), fam("wide","H",20000)])
 prop("C14",
      ["C14_exclusive", "C14_try_succeeds_when_free", "C14_try_fails_when_held", "C14_waits_for_holder", "C14_reporting",
       "C14_no_values_without_guard_ops", "C14_empty_when_idle", "C14_witness"],
@@ -115,7 +115,7 @@ prop("C15",
      ["C15_callback_panic_like_error", "C15_panic_reaches_caller", "C15_closure_panic", "C15_values_are_those_committed", "C15_still_consistent", "C15_witness"],
      ["C02.", "C04.", "C12.", "C13.", "C15.", "C08."],
      [fam("evict","H",2500), fam("evict","L",2500), fam("mix","H",1500), fam("mix","L",1500), fam("fine-evict","L",1500), fam("fine-mix","H",1500), fam("wide-evict","H",600)],
-     [fam("evict","H",60000), fam("evict","L",60000), fam("mix","H",40000), fam("mix","L",40000), fam("dfs-evict","L",200000), fam("fine-evict","L",40000), fam("fine-evict","H",40000), fam("fine-mix","H",40000), fam("wide-evict","H",20000), fam("wide","L",20000)])
+     [fam("evict","H",60000), fam("evict","L",60000), fam("mix","H",40000), fam("mix","L",40000), fam("dfs-evict","L",80000), fam("fine-evict","L",40000), fam("fine-evict","H",40000), fam("fine-mix","H",40000), fam("wide-evict","H",20000), fam("wide","L",20000)])
 
 
 prop("C05",
